@@ -10,18 +10,3 @@ def c07_threshold_lone_sample(rec, fctx):
     Recognised only then, and only when the implementation still agrees with the pinned model of the kernel."""
     return bool(fctx and fctx.get("op") == "threshold" and fctx.get("lone_kept", False)
                 and fctx.get("impl_equals_model", False))
-
-
-def c11_empty_series_with_support(rec, fctx):
-    """A series with NO sample but a non-empty time support (only obtainable by constructing it with every
-    sample outside the support) loads back with the empty support: the reader goes through the constructor,
-    which gives an empty index the empty support.  Recognised only when the object is empty, its support is
-    not, and the support is the only thing that differs."""
-    inp = rec.get("input") or {}
-    obj = inp.get("obj") or {}
-    if obj.get("cls") not in ("Ts", "Tsd", "TsdFrame", "TsdTensor"):
-        return False
-    if obj.get("t") != [] or not obj.get("sup") or not obj["sup"][0]:
-        return False
-    impl = rec.get("impl") or {}
-    return set(impl.keys()) == {"sup"} and list(map(list, impl["sup"])) == [[], []]
